@@ -106,6 +106,11 @@ struct RefSource {
     entries: Vec<(u32, u32, u32)>,
 }
 
+/// Minified text in which the name-guessing heuristic of regular maps would find a function
+/// called `f` declared at column 9 (tokens are put on `function` and on `f`, see `cases`).
+const BAIT_TEXT: &str = "function f(a){return a}";
+const BAIT_NAME: &str = "f";
+
 fn ref_scope(src: Option<&RefSource>, line0: u32, col: u32) -> Option<String> {
     let s = src?;
     let key = (line0.checked_add(1)?, col);
@@ -162,6 +167,7 @@ fn answers(h: &SourceMapHermes, c: &Case, refs: &[Option<RefSource>], stage: &st
     offsets.sort();
     offsets.dedup();
     let as_decoded = DecodedMap::Hermes(h.clone());
+    let bait_view = sourcemap::SourceView::from_string(BAIT_TEXT.to_string());
     for off in offsets {
         obs.inner_evals += 1;
         let q = (0u32, off);
@@ -202,6 +208,15 @@ fn answers(h: &SourceMapHermes, c: &Case, refs: &[Option<RefSource>], stage: &st
             .map_err(|p| format!("{stage}: DecodedMap::get_original_function_name(0,{off}): {p}"))?;
         if !acceptable.contains(&got2) {
             return Err(format!("{stage}: DecodedMap::get_original_function_name(0, {off}, None, None) = {got2:?}, expected one of {acceptable:?}"));
+        }
+        // the optional arguments are for maps that need the minified source; a Hermes map answers from
+        // its function maps alone, whatever the caller passes along
+        let got3 = guard(|| as_decoded.get_original_function_name(0, off, Some(BAIT_NAME), Some(&bait_view)).map(str::to_string))
+            .map_err(|p| format!("{stage}: DecodedMap::get_original_function_name(0,{off},Some,Some): {p}"))?;
+        if !acceptable.contains(&got3) {
+            return Err(format!(
+                "{stage}: DecodedMap::get_original_function_name(0, {off}, Some({BAIT_NAME:?}), Some(view of {BAIT_TEXT:?})) = {got3:?}, expected one of {acceptable:?} (what the function maps say)"
+            ));
         }
         let nonzero = guard(|| as_decoded.get_original_function_name(1, off, None, None).is_none()).map_err(|p| format!("{stage}: {p}"))?;
         if !nonzero {
@@ -395,6 +410,19 @@ fn cases(t: Tier) -> BoxedStrategy<Case> {
                             s.line = (s.line * 7 + t.dc) % 42;
                         }
                     }
+                }
+            }
+            // a third of the cases: a source *without* function map whose tokens sit on `function` and
+            // on the declared name of BAIT_TEXT and carry names - nothing may be answered for them
+            if offsets.len() % 3 == 0 {
+                let bait = map.sources.len() as u32;
+                map.sources.push("bait.js".into());
+                meta.truncate(bait as usize);
+                if map.names.is_empty() {
+                    map.names.push("origName".into());
+                }
+                for (dc, col) in [(0u32, 0u32), (9, 9)] {
+                    map.tokens.push(MTok { dl: 0, dc, src: Some(crate::refimpl::v3::RefSrc { id: bait, line: 0, col, name: Some(0) }), range: false, junk: (0, 0) });
                 }
             }
             Case { map, meta, offsets }
